@@ -42,7 +42,7 @@ def parse_harnesses(path):
     out = {}
     pending = {}
     for line in open(path):
-        m = re.match(r"\s*//verif:\s*(.*)", line)
+        m = re.match(r"\s*//\s*verif:\s*(.*)", line)
         if m:
             for kv in m.group(1).split():
                 if "=" in kv:
